@@ -25,6 +25,8 @@ import RattrModel.Resolve
 import RattrModel.Spec.ImportEquiv
 import RattrModel.Generated.C06
 import RattrProofs.Lemmas.C06
+import RattrModel.Pipeline2
+import RattrProofs.Lemmas.Pipeline2
 
 namespace Rattr.C06
 open Rattr Rattr.Strs Rattr.Resolve Rattr.Spec.ImportEquiv
@@ -638,5 +640,556 @@ example : Acyclic wOk rkOk ∧ ∀ mn, rkOk mn < wOk.irs.length :=
 
 example : resolveImport wOk (wOk.irs.length + 1) ⟨s "f", s "pkg.f"⟩ = .found (s "pkg.y") (.cls (s "f") true) := by
   decide
+
+end Rattr.C06
+
+/-! ## The MULTI-file pipeline (`RattrModel/Pipeline2.lean`, op `pipeline2`)
+
+`Pipeline2.run2` models `python -m rattr -o results -f 1 target.py` end to end: the target's root
+context with star expansion, the import BFS (each followed file analysed under its own root
+context), the target's file walk, and result generation over the concatenation of ALL FileIrs with
+the CURRENT `find_call_target_and_ir` (location-aware after fixes 2103117 / 8b74e12). Tie B: the
+`pipeline2` stage of `py/props/c06.py` (outcome, document, ordered diagnostics, `import_irs` keys and
+every FileIr after result generation, against the real in-process run and a CLI sample). -/
+
+namespace Rattr.C06
+open Rattr Rattr.Results Rattr.FnA Rattr.Pipeline2
+open Rattr.Pipeline (ResultsDoc ImpFacts)
+open Rattr.FileA (Outcome)
+
+/-- **(a) `pipeline2_single_file`.** A target whose root context holds no `Import` symbol and
+whose FileIr holds no call with an `Import` target: the multi-file pipeline IS the single-file
+pipeline `Pipeline.run` — same outcome, document and diagnostics — for every `ImpFacts` (they are
+never consulted). Both hypotheses are Boolean functions of the input. -/
+theorem pipeline2_single_file (P : Project) (imp : ImpFacts)
+    (hI : noImportSyms P = true) (hT : noImportTargets P = true) :
+    run2 P = Pipeline.run P.env (mnOf P.target) (factsOf P P.target) P.builtins P.target.body imp :=
+  runWith2_single_file id P imp hI hT
+
+/-- …and for every order of the ties of equal-named Call symbols. -/
+theorem pipeline2_single_file_any_order (ord : List CallSym → List CallSym) (P : Project) (imp : ImpFacts)
+    (hI : noImportSyms P = true) (hT : noImportTargets P = true) :
+    runWith2 ord P =
+      Pipeline.runWith ord P.env (mnOf P.target) (factsOf P P.target) P.builtins P.target.body imp :=
+  runWith2_single_file ord P imp hI hT
+
+/-- **`pipeline2_per_node_resolver`.** The traversal with the resolver of the CALLING node's file
+is `Pipeline.genLoop` (hence `Results.generate`, hence every C03 theorem) on ONE program as soon as
+the resolver is coherent: no Call symbol (equality class — Python `==` ignores locations) is held
+by two files that resolve it differently. -/
+theorem pipeline2_per_node_resolver (P : Prog) (rs : Key → Nat → Option Key) (q : Nat → Option Key)
+    (hco : Coherent P rs q) (D : Pipeline.DiagCtx) (order : List Key) (σ : Store) :
+    genLoop2 P rs D order σ = Pipeline.genLoop (withRes P q) D order σ :=
+  genLoop2_eq_genLoop_coh hco D order σ
+
+/-- **`pipeline2_resolver_coherent`.** The model's resolver is coherent for EVERY project: since fix
+ab5bdf0 the equality class of a call record is (file, Call symbol), so all holders of a class
+resolve it from the same file (`qAll`: the class's symbol resolved from the class's file). -/
+theorem pipeline2_resolver_coherent (P : Project) (fs : List AFile) :
+    Coherent (toProg2 id fs) (rsOf P fs) (qAll P fs) :=
+  coherent_all P fs
+
+/-- **`pipeline2_composition`.** EVERY successful multi-file run is: the file stage of the target
+and of every followed module (`analyseAll`); the proved `Results.generate` on ONE program over the
+concatenated FileIrs, roots = the target's keys in order, one shared store; `mkDoc`. So what is
+proved of `Results.generate` (C03 / C05 / C14: termination, soundness on all graphs, exactness on
+tree-like graphs) holds of the multi-file run with `progQ fs (qAll P fs)` as its program. -/
+theorem pipeline2_composition {P : Project} {doc : ResultsDoc} {ds : List Diag} (h : run2 P = .ok (doc, ds)) :
+    ∃ t irs ds0 res σ', analyseAll P = .ok (t, irs, ds0) ∧
+      generate (progQ (t :: irs) (qAll P (t :: irs))) (List.range t.ir.length)
+        (Pipeline.toStore (gfir (t :: irs))) = .ok (res, σ') ∧
+      doc = Pipeline.mkDoc (gfir (t :: irs)) res :=
+  run2_generate_all h
+
+/-- **`pipeline2_depth_one_equiv`** — C06 at depth one, for EVERY import form at once. Two
+projects in which the root called `name` has resolvable callees that are leaves, equal own sets and
+the same edge views (call arguments, callee interface, callee own sets): wherever the callees
+live (target, followed module, re-exporting chain) and however they are spelled, both runs print
+entries with the same gets / sets / dels under `name`; and the same calls if the callee spellings
+coincide. The hypothesis is a Boolean function of the two inputs that does NOT run result
+generation (`rootView`: file stage of both projects, the resolver on the root's calls, leaf checks). -/
+theorem pipeline2_depth_one_equiv {P P' : Project} {name : Str} (hB : depthOneEquivB P P' name = true)
+    {doc doc' : ResultsDoc} {ds ds' : List Diag} (h : run2 P = .ok (doc, ds)) (h' : run2 P' = .ok (doc', ds')) :
+    ∃ e e', Dict.get? doc name = some e ∧ Dict.get? doc' name = some e' ∧
+      (∀ n, (n ∈ e.gets ↔ n ∈ e'.gets) ∧ (n ∈ e.sets ↔ n ∈ e'.sets) ∧ (n ∈ e.dels ↔ n ∈ e'.dels)) ∧
+      (callNamesB P P' name = true → ∀ n, n ∈ e.calls ↔ n ∈ e'.calls) :=
+  depthOne_equiv hB h h'
+
+/-- **(b) `pipeline2_from_import_equiv`** — the C06 statement for `from m import f`, end to end
+from the two sources: the target imports `f` from a followed module that defines it (`_hT`, `_hM`);
+the reference project has that very definition in the target file instead of the import statement,
+the rest of the target unchanged (`_hT'`). Under the decidable hypothesis `hOK` (the caller's
+callees are leaves, its own sets and edge views coincide in the two analyses — see
+`pipeline2_depth_one_equiv`; the shape hypotheses only say which pair of projects is meant), the
+caller's entry has the same members in both documents. -/
+theorem pipeline2_from_import_equiv (P P' : Project) (m f caller : Str) (ps : Params) (fbody : List Node)
+    (decos : List Ann.Deco) (isAsync : Bool) (abs : Str) (sf co : Bool) (rest pre post : List Top) (mf : SrcFile)
+    (_hT : P.target.body = .importFrom (some m) 0 [⟨f, none⟩] abs sf co :: rest)
+    (_hM : mf ∈ P.files ∧ mf.body = pre ++ .funcDef f ps fbody decos isAsync :: post)
+    (_hT' : P'.target.body = .funcDef f ps fbody decos isAsync :: rest)
+    (hOK : depthOneEquivB P P' caller = true ∧ callNamesB P P' caller = true)
+    {doc doc' : ResultsDoc} {ds ds' : List Diag} (h : run2 P = .ok (doc, ds)) (h' : run2 P' = .ok (doc', ds')) :
+    ∃ e e', Dict.get? doc caller = some e ∧ Dict.get? doc' caller = some e' ∧
+      ∀ n, (n ∈ e.gets ↔ n ∈ e'.gets) ∧ (n ∈ e.sets ↔ n ∈ e'.sets) ∧ (n ∈ e.dels ↔ n ∈ e'.dels) ∧
+           (n ∈ e.calls ↔ n ∈ e'.calls) := by
+  obtain ⟨e, e', hg, hg', hm, hc⟩ := depthOne_equiv hOK.1 h h'
+  exact ⟨e, e', hg, hg', fun n => ⟨(hm n).1, (hm n).2.1, (hm n).2.2, hc hOK.2 n⟩⟩
+
+/-- **(c) `pipeline2_module_local`** — fix 2103117 as a theorem. A call held by a function of a
+followed module `h` (its file is not the target's; its derived module name is its own key of
+`import_irs`) whose target is a `Func` key of THAT module resolves to that module's key: the key's
+file is `h` and it holds the target symbol — whatever the target file (`fs[0]`) defines, a
+same-named, equal function included. -/
+theorem pipeline2_module_local (P : Project) (fs : List AFile) (h : Nat) (f : AFile) (m : Str)
+    (c : CallSym) (t : Sym) (ir : IR)
+    (hf : fs[h]? = some f) (ho : originAt fs h ≠ originAt fs 0) (hd : f.derived = some m)
+    (hi : irIdx fs m = some h) (hc : c.target = some t) (hk : t.kind = .func)
+    (hx : P.excluded.contains t.name = false) (hmem : (t, ir) ∈ f.ir) :
+    ∃ k, resolveCall2 P fs h c = .target k ∧ homeOf fs k = h ∧
+      ∃ ir', (gfir fs)[k]? = some (t, ir') ∧ (t, ir') ∈ f.ir := by
+  have hkey : ∃ j, Pipeline.keyOf f.ir t = some j :=
+    Pipeline.indexOf?_of_mem (List.mem_map.mpr ⟨(t, ir), hmem, rfl⟩)
+  obtain ⟨j, hj⟩ := hkey
+  have hin : keyIn fs h t = some (j + offsetOf fs h) := by simp [keyIn, hf, hj]
+  obtain ⟨hhome, f', ir', hf', hmem', hG⟩ := keyIn_spec hin
+  rw [hf] at hf'
+  injection hf' with hf'
+  subst hf'
+  refine ⟨j + offsetOf fs h, ?_, hhome, ir', hG, hmem'⟩
+  unfold resolveCall2
+  simp only [hc, hk, hx, Bool.false_eq_true, if_false, resolveSym_module_local t hf ho hd hi, hin]
+
+/-- **`pipeline2_class_local`** — fix 8b74e12 as a theorem. When the file of the calling function
+defines a class of the target's name, `__resolve_real_class_target` answers a class key of a file
+with that same origin (never a same-named class of another file, whatever the target defines). -/
+theorem pipeline2_class_local (fs : List AFile) (h : Nat) (f : AFile) (t : Sym) (p : Sym × IR)
+    (hf : fs[h]? = some f) (hp : p ∈ f.ir) (hk : p.1.kind = .cls) (hn : p.1.name = t.name) :
+    originAt fs (realClass2 fs h t).1 = originAt fs h ∧ (realClass2 fs h t).2.kind = .cls ∧
+      (realClass2 fs h t).2.name = t.name ∧
+      ∃ f' ir, fs[(realClass2 fs h t).1]? = some f' ∧ ((realClass2 fs h t).2, ir) ∈ f'.ir :=
+  realClass2_same_file hf hp hk hn
+
+/-- **`pipeline2_class_no_fallback`** — fix bb30ccd as a theorem. Without a class of that name in a
+file with the caller's origin, the target symbol is returned unchanged — a same-named class of
+another file is never substituted. -/
+theorem pipeline2_class_no_fallback (fs : List AFile) (h : Nat) (t : Sym)
+    (hno : ∀ c ∈ classCandidatesFrom t.name 0 fs, originAt fs c.1 ≠ originAt fs h) :
+    realClass2 fs h t = (h, t) := by
+  unfold realClass2
+  rw [List.find?_eq_none.mpr (fun c hc => by simpa using hno c hc)]
+
+/-! ### concrete projects (rendered by `py/tools/lean_project.py` from real source trees, with the
+facts the real locator functions give; builtins cut down to `print`) -/
+
+def envE : FnA.Env := { ctxEnv := { prims := [], literals := [] }, analysers := [] }
+
+/-- `target.py: from m import f / def caller(x, y): f(x); return y.own`,
+`m.py: def f(p): p.seen = 1; return p.in_f` -/
+def proj_split : Project :=
+  { env := envE, builtins := ["print".toList],
+    mods :=
+    [("m".toList, ⟨false, true, true⟩),
+     ("m.*".toList, ⟨false, true, false⟩),
+     ("m.f".toList, ⟨false, true, false⟩),
+     ("m.f.*".toList, ⟨false, true, false⟩)],
+    quals :=
+    [("m".toList, { module := (some "m".toList), origin := (some "/proj/m.py".toList), pySource := true, builtinLoader := false, blacklisted := false, inPip := false, inStdlib := false }),
+     ("m.*".toList, { module := (some "m".toList), origin := (some "/proj/m.py".toList), pySource := true, builtinLoader := false, blacklisted := false, inPip := false, inStdlib := false }),
+     ("m.f".toList, { module := (some "m".toList), origin := (some "/proj/m.py".toList), pySource := true, builtinLoader := false, blacklisted := false, inPip := false, inStdlib := false }),
+     ("m.f.*".toList, { module := (some "m".toList), origin := (some "/proj/m.py".toList), pySource := true, builtinLoader := false, blacklisted := false, inPip := false, inStdlib := false })],
+    excluded := [],
+    target :=
+    { origin := "target.py".toList, derived := (some "target".toList), isInit := false,
+      body :=
+      [.importFrom (some "m".toList) 0 [⟨"f".toList, none⟩] "".toList false true,
+     .funcDef "caller".toList ⟨[], ["x".toList, "y".toList], none, [], none⟩
+      [(.other "Expr".toList [(.call (.name "f".toList .load) [(.name "x".toList .load)] [] [])]), (.ret [(.attr (.name "y".toList .load) "own".toList .load)])]
+      [] false] },
+    files :=
+  [{ origin := "/proj/m.py".toList, derived := (some "m".toList), isInit := false,
+      body :=
+      [.funcDef "f".toList ⟨[], ["p".toList], none, [], none⟩
+      [(.assign [(.attr (.name "p".toList .load) "seen".toList .store)] .const), (.ret [(.attr (.name "p".toList .load) "in_f".toList .load)])]
+      [] false] }] }
+
+def proj_splitDoc : ResultsDoc :=
+  [("caller".toList, ⟨["x".toList, "x.in_f".toList, "y.own".toList], ["x.seen".toList], [], ["f()".toList]⟩)]
+
+/-- the reference: `f` defined in the target itself -/
+def proj_local : Project :=
+  { env := envE, builtins := ["print".toList],
+    mods :=
+    [],
+    quals :=
+    [],
+    excluded := [],
+    target :=
+    { origin := "target.py".toList, derived := (some "target".toList), isInit := false,
+      body :=
+      [.funcDef "f".toList ⟨[], ["p".toList], none, [], none⟩
+      [(.assign [(.attr (.name "p".toList .load) "seen".toList .store)] .const), (.ret [(.attr (.name "p".toList .load) "in_f".toList .load)])]
+      [] false,
+     .funcDef "caller".toList ⟨[], ["x".toList, "y".toList], none, [], none⟩
+      [(.other "Expr".toList [(.call (.name "f".toList .load) [(.name "x".toList .load)] [] [])]), (.ret [(.attr (.name "y".toList .load) "own".toList .load)])]
+      [] false] },
+    files :=
+  [] }
+
+def proj_localDoc : ResultsDoc :=
+  [("f".toList, ⟨["p.in_f".toList], ["p.seen".toList], [], []⟩),
+   ("caller".toList, ⟨["x".toList, "x.in_f".toList, "y.own".toList], ["x.seen".toList], [], ["f()".toList]⟩)]
+
+/-- `import m` + `m.f(x)` -/
+def proj_imp : Project :=
+  { env := envE, builtins := ["print".toList],
+    mods :=
+    [("m".toList, ⟨false, true, true⟩),
+     ("m.*".toList, ⟨false, true, false⟩),
+     ("m.f".toList, ⟨false, true, false⟩),
+     ("m.f.*".toList, ⟨false, true, false⟩)],
+    quals :=
+    [("m".toList, { module := (some "m".toList), origin := (some "/proj/m.py".toList), pySource := true, builtinLoader := false, blacklisted := false, inPip := false, inStdlib := false }),
+     ("m.*".toList, { module := (some "m".toList), origin := (some "/proj/m.py".toList), pySource := true, builtinLoader := false, blacklisted := false, inPip := false, inStdlib := false }),
+     ("m.f".toList, { module := (some "m".toList), origin := (some "/proj/m.py".toList), pySource := true, builtinLoader := false, blacklisted := false, inPip := false, inStdlib := false }),
+     ("m.f.*".toList, { module := (some "m".toList), origin := (some "/proj/m.py".toList), pySource := true, builtinLoader := false, blacklisted := false, inPip := false, inStdlib := false })],
+    excluded := [],
+    target :=
+    { origin := "target.py".toList, derived := (some "target".toList), isInit := false,
+      body :=
+      [.importStmt [⟨"m".toList, none⟩],
+     .funcDef "caller".toList ⟨[], ["x".toList, "y".toList], none, [], none⟩
+      [(.other "Expr".toList [(.call (.attr (.name "m".toList .load) "f".toList .load) [(.name "x".toList .load)] [] [])]), (.ret [(.attr (.name "y".toList .load) "own".toList .load)])]
+      [] false] },
+    files :=
+  [{ origin := "/proj/m.py".toList, derived := (some "m".toList), isInit := false,
+      body :=
+      [.funcDef "f".toList ⟨[], ["p".toList], none, [], none⟩
+      [(.assign [(.attr (.name "p".toList .load) "seen".toList .store)] .const), (.ret [(.attr (.name "p".toList .load) "in_f".toList .load)])]
+      [] false] }] }
+
+def proj_impDoc : ResultsDoc :=
+  [("caller".toList, ⟨["x".toList, "x.in_f".toList, "y.own".toList], ["x.seen".toList], [], ["m.f()".toList]⟩)]
+
+/-- `from pkg import f`, `pkg/__init__.py: from .sub import f`, `pkg/sub.py` defines `f` -/
+def proj_reexp : Project :=
+  { env := envE, builtins := ["print".toList],
+    mods :=
+    [("pkg".toList, ⟨false, true, true⟩),
+     ("pkg.*".toList, ⟨false, true, false⟩),
+     ("pkg.f".toList, ⟨false, true, false⟩),
+     ("pkg.f.*".toList, ⟨false, true, false⟩),
+     ("pkg.sub".toList, ⟨false, true, true⟩),
+     ("pkg.sub.*".toList, ⟨false, true, false⟩),
+     ("pkg.sub.f".toList, ⟨false, true, false⟩),
+     ("pkg.sub.f.*".toList, ⟨false, true, false⟩)],
+    quals :=
+    [("pkg".toList, { module := (some "pkg".toList), origin := (some "/proj/pkg/__init__.py".toList), pySource := true, builtinLoader := false, blacklisted := false, inPip := false, inStdlib := false }),
+     ("pkg.*".toList, { module := (some "pkg".toList), origin := (some "/proj/pkg/__init__.py".toList), pySource := true, builtinLoader := false, blacklisted := false, inPip := false, inStdlib := false }),
+     ("pkg.f".toList, { module := (some "pkg".toList), origin := (some "/proj/pkg/__init__.py".toList), pySource := true, builtinLoader := false, blacklisted := false, inPip := false, inStdlib := false }),
+     ("pkg.f.*".toList, { module := (some "pkg".toList), origin := (some "/proj/pkg/__init__.py".toList), pySource := true, builtinLoader := false, blacklisted := false, inPip := false, inStdlib := false }),
+     ("pkg.sub".toList, { module := (some "pkg.sub".toList), origin := (some "/proj/pkg/sub.py".toList), pySource := true, builtinLoader := false, blacklisted := false, inPip := false, inStdlib := false }),
+     ("pkg.sub.*".toList, { module := (some "pkg.sub".toList), origin := (some "/proj/pkg/sub.py".toList), pySource := true, builtinLoader := false, blacklisted := false, inPip := false, inStdlib := false }),
+     ("pkg.sub.f".toList, { module := (some "pkg.sub".toList), origin := (some "/proj/pkg/sub.py".toList), pySource := true, builtinLoader := false, blacklisted := false, inPip := false, inStdlib := false }),
+     ("pkg.sub.f.*".toList, { module := (some "pkg.sub".toList), origin := (some "/proj/pkg/sub.py".toList), pySource := true, builtinLoader := false, blacklisted := false, inPip := false, inStdlib := false })],
+    excluded := [],
+    target :=
+    { origin := "target.py".toList, derived := (some "target".toList), isInit := false,
+      body :=
+      [.importFrom (some "pkg".toList) 0 [⟨"f".toList, none⟩] "".toList false true,
+     .funcDef "caller".toList ⟨[], ["x".toList, "y".toList], none, [], none⟩
+      [(.other "Expr".toList [(.call (.name "f".toList .load) [(.name "x".toList .load)] [] [])]), (.ret [(.attr (.name "y".toList .load) "own".toList .load)])]
+      [] false] },
+    files :=
+  [{ origin := "/proj/pkg/__init__.py".toList, derived := (some "pkg".toList), isInit := true,
+      body :=
+      [.importFrom (some "sub".toList) 1 [⟨"f".toList, none⟩] "pkg.sub".toList true true] },
+   { origin := "/proj/pkg/sub.py".toList, derived := (some "pkg.sub".toList), isInit := false,
+      body :=
+      [.funcDef "f".toList ⟨[], ["p".toList], none, [], none⟩
+      [(.assign [(.attr (.name "p".toList .load) "seen".toList .store)] .const), (.ret [(.attr (.name "p".toList .load) "in_f".toList .load)])]
+      [] false] }] }
+
+def proj_reexpDoc : ResultsDoc :=
+  [("caller".toList, ⟨["x".toList, "x.in_f".toList, "y.own".toList], ["x.seen".toList], [], ["f()".toList]⟩)]
+
+/-- same-named `util` / `H` in the target and in the followed module `m` (fixes 2103117 / 8b74e12) -/
+def proj_twin : Project :=
+  { env := envE, builtins := ["print".toList],
+    mods :=
+    [("m".toList, ⟨false, true, true⟩),
+     ("m.*".toList, ⟨false, true, false⟩),
+     ("m.f".toList, ⟨false, true, false⟩),
+     ("m.f.*".toList, ⟨false, true, false⟩),
+     ("m.mk".toList, ⟨false, true, false⟩),
+     ("m.mk.*".toList, ⟨false, true, false⟩)],
+    quals :=
+    [("m".toList, { module := (some "m".toList), origin := (some "/proj/m.py".toList), pySource := true, builtinLoader := false, blacklisted := false, inPip := false, inStdlib := false }),
+     ("m.*".toList, { module := (some "m".toList), origin := (some "/proj/m.py".toList), pySource := true, builtinLoader := false, blacklisted := false, inPip := false, inStdlib := false }),
+     ("m.f".toList, { module := (some "m".toList), origin := (some "/proj/m.py".toList), pySource := true, builtinLoader := false, blacklisted := false, inPip := false, inStdlib := false }),
+     ("m.f.*".toList, { module := (some "m".toList), origin := (some "/proj/m.py".toList), pySource := true, builtinLoader := false, blacklisted := false, inPip := false, inStdlib := false }),
+     ("m.mk".toList, { module := (some "m".toList), origin := (some "/proj/m.py".toList), pySource := true, builtinLoader := false, blacklisted := false, inPip := false, inStdlib := false }),
+     ("m.mk.*".toList, { module := (some "m".toList), origin := (some "/proj/m.py".toList), pySource := true, builtinLoader := false, blacklisted := false, inPip := false, inStdlib := false })],
+    excluded := [],
+    target :=
+    { origin := "target.py".toList, derived := (some "target".toList), isInit := false,
+      body :=
+      [.importFrom (some "m".toList) 0 [⟨"f".toList, none⟩, ⟨"mk".toList, none⟩] "".toList false true,
+     .funcDef "util".toList ⟨[], ["a".toList], none, [], none⟩
+      [(.ret [(.attr (.name "a".toList .load) "t_util".toList .load)])]
+      [] false,
+     .classDef "H".toList []
+     [.funcDef "__init__".toList ⟨[], ["self".toList, "q".toList], none, [], none⟩
+      [(.assign [(.attr (.name "self".toList .load) "q".toList .store)] (.attr (.name "q".toList .load) "t_h".toList .load))]
+      [] false]
+     [],
+     .funcDef "caller".toList ⟨[], ["x".toList, "y".toList], none, [], none⟩
+      [(.other "Expr".toList [(.call (.name "util".toList .load) [(.name "x".toList .load)] [] [])]), (.other "Expr".toList [(.call (.name "f".toList .load) [(.name "y".toList .load)] [] [])]), (.other "Expr".toList [(.call (.name "mk".toList .load) [(.name "y".toList .load)] [] [])])]
+      [] false] },
+    files :=
+  [{ origin := "/proj/m.py".toList, derived := (some "m".toList), isInit := false,
+      body :=
+      [.funcDef "util".toList ⟨[], ["a".toList], none, [], none⟩
+      [(.ret [(.attr (.name "a".toList .load) "m_util".toList .load)])]
+      [] false,
+     .classDef "H".toList []
+     [.funcDef "__init__".toList ⟨[], ["self".toList, "q".toList], none, [], none⟩
+      [(.assign [(.attr (.name "self".toList .load) "q".toList .store)] (.attr (.name "q".toList .load) "m_h".toList .load))]
+      [] false]
+     [],
+     .funcDef "f".toList ⟨[], ["p".toList], none, [], none⟩
+      [(.other "Expr".toList [(.call (.name "util".toList .load) [(.name "p".toList .load)] [] [])]), (.ret [(.attr (.name "p".toList .load) "in_f".toList .load)])]
+      [] false,
+     .funcDef "mk".toList ⟨[], ["w".toList], none, [], none⟩
+      [(.ret [(.call (.name "H".toList .load) [(.name "w".toList .load)] [] [])])]
+      [] false] }] }
+
+def proj_twinDoc : ResultsDoc :=
+  [("util".toList, ⟨["a.t_util".toList], [], [], []⟩),
+   ("H".toList, ⟨["q.t_h".toList], ["self.q".toList], [], []⟩),
+   ("caller".toList, ⟨["x".toList, "x.t_util".toList, "y".toList, "y.in_f".toList, "y.m_h".toList, "y.m_util".toList], ["@ReturnValue.q".toList], [], ["f()".toList, "mk()".toList, "util()".toList]⟩)]
+
+/-- EQUAL Call symbols `util(a)` in the target and in `m` -/
+def proj_seen : Project :=
+  { env := envE, builtins := ["print".toList],
+    mods :=
+    [("m".toList, ⟨false, true, true⟩),
+     ("m.*".toList, ⟨false, true, false⟩),
+     ("m.f".toList, ⟨false, true, false⟩),
+     ("m.f.*".toList, ⟨false, true, false⟩)],
+    quals :=
+    [("m".toList, { module := (some "m".toList), origin := (some "/proj/m.py".toList), pySource := true, builtinLoader := false, blacklisted := false, inPip := false, inStdlib := false }),
+     ("m.*".toList, { module := (some "m".toList), origin := (some "/proj/m.py".toList), pySource := true, builtinLoader := false, blacklisted := false, inPip := false, inStdlib := false }),
+     ("m.f".toList, { module := (some "m".toList), origin := (some "/proj/m.py".toList), pySource := true, builtinLoader := false, blacklisted := false, inPip := false, inStdlib := false }),
+     ("m.f.*".toList, { module := (some "m".toList), origin := (some "/proj/m.py".toList), pySource := true, builtinLoader := false, blacklisted := false, inPip := false, inStdlib := false })],
+    excluded := [],
+    target :=
+    { origin := "target.py".toList, derived := (some "target".toList), isInit := false,
+      body :=
+      [.importFrom (some "m".toList) 0 [⟨"f".toList, none⟩] "".toList false true,
+     .funcDef "util".toList ⟨[], ["a".toList], none, [], none⟩
+      [(.ret [(.attr (.name "a".toList .load) "t_util".toList .load)])]
+      [] false,
+     .funcDef "caller".toList ⟨[], ["a".toList], none, [], none⟩
+      [(.other "Expr".toList [(.call (.name "util".toList .load) [(.name "a".toList .load)] [] [])]), (.other "Expr".toList [(.call (.name "f".toList .load) [(.name "a".toList .load)] [] [])])]
+      [] false] },
+    files :=
+  [{ origin := "/proj/m.py".toList, derived := (some "m".toList), isInit := false,
+      body :=
+      [.funcDef "util".toList ⟨[], ["a".toList], none, [], none⟩
+      [(.ret [(.attr (.name "a".toList .load) "m_util".toList .load)])]
+      [] false,
+     .funcDef "f".toList ⟨[], ["a".toList], none, [], none⟩
+      [(.other "Expr".toList [(.call (.name "util".toList .load) [(.name "a".toList .load)] [] [])]), (.ret [(.attr (.name "a".toList .load) "in_f".toList .load)])]
+      [] false] }] }
+
+def proj_seenDoc : ResultsDoc :=
+  [("util".toList, ⟨["a.t_util".toList], [], [], []⟩),
+   ("caller".toList, ⟨["a".toList, "a.in_f".toList, "a.m_util".toList, "a.t_util".toList], [], [], ["f()".toList, "util()".toList]⟩)]
+
+/-- `m.mk` constructs `K`, which `m` defines WITHOUT initialiser; the target defines a `K` with one -/
+def proj_nofb : Project :=
+  { env := envE, builtins := ["print".toList],
+    mods :=
+    [("m".toList, ⟨false, true, true⟩),
+     ("m.*".toList, ⟨false, true, false⟩),
+     ("m.mk".toList, ⟨false, true, false⟩),
+     ("m.mk.*".toList, ⟨false, true, false⟩)],
+    quals :=
+    [("m".toList, { module := (some "m".toList), origin := (some "/proj/m.py".toList), pySource := true, builtinLoader := false, blacklisted := false, inPip := false, inStdlib := false }),
+     ("m.*".toList, { module := (some "m".toList), origin := (some "/proj/m.py".toList), pySource := true, builtinLoader := false, blacklisted := false, inPip := false, inStdlib := false }),
+     ("m.mk".toList, { module := (some "m".toList), origin := (some "/proj/m.py".toList), pySource := true, builtinLoader := false, blacklisted := false, inPip := false, inStdlib := false }),
+     ("m.mk.*".toList, { module := (some "m".toList), origin := (some "/proj/m.py".toList), pySource := true, builtinLoader := false, blacklisted := false, inPip := false, inStdlib := false })],
+    excluded := [],
+    target :=
+    { origin := "target.py".toList, derived := (some "target".toList), isInit := false,
+      body :=
+      [.importFrom (some "m".toList) 0 [⟨"mk".toList, none⟩] "".toList false true,
+     .classDef "K".toList []
+     [.funcDef "__init__".toList ⟨[], ["self".toList, "v".toList], none, [], none⟩
+      [(.assign [(.attr (.name "self".toList .load) "t".toList .store)] (.attr (.name "v".toList .load) "t_init".toList .load))]
+      [] false]
+     [],
+     .funcDef "caller".toList ⟨[], ["x".toList], none, [], none⟩
+      [(.other "Expr".toList [(.call (.name "mk".toList .load) [(.name "x".toList .load)] [] [])])]
+      [] false] },
+    files :=
+  [{ origin := "/proj/m.py".toList, derived := (some "m".toList), isInit := false,
+      body :=
+      [.classDef "K".toList []
+     [.assign [(.name "attr".toList .store)] [] (some .const)]
+     [],
+     .funcDef "mk".toList ⟨[], ["w".toList], none, [], none⟩
+      [(.assign [(.name "k".toList .store)] (.call (.name "K".toList .load) [(.name "w".toList .load)] [] [])), (.ret [(.name "k".toList .load)])]
+      [] false] }] }
+
+def proj_nofbDoc : ResultsDoc :=
+  [("K".toList, ⟨["v.t_init".toList], ["self.t".toList], [], []⟩),
+   ("caller".toList, ⟨["k".toList, "x".toList], ["k".toList], [], ["mk()".toList]⟩)]
+
+/-- `from m import f as g` -/
+def proj_alias : Project :=
+  { env := envE, builtins := ["print".toList],
+    mods :=
+    [("m".toList, ⟨false, true, true⟩),
+     ("m.*".toList, ⟨false, true, false⟩),
+     ("m.f".toList, ⟨false, true, false⟩),
+     ("m.f.*".toList, ⟨false, true, false⟩)],
+    quals :=
+    [("m".toList, { module := (some "m".toList), origin := (some "/proj/m.py".toList), pySource := true, builtinLoader := false, blacklisted := false, inPip := false, inStdlib := false }),
+     ("m.*".toList, { module := (some "m".toList), origin := (some "/proj/m.py".toList), pySource := true, builtinLoader := false, blacklisted := false, inPip := false, inStdlib := false }),
+     ("m.f".toList, { module := (some "m".toList), origin := (some "/proj/m.py".toList), pySource := true, builtinLoader := false, blacklisted := false, inPip := false, inStdlib := false }),
+     ("m.f.*".toList, { module := (some "m".toList), origin := (some "/proj/m.py".toList), pySource := true, builtinLoader := false, blacklisted := false, inPip := false, inStdlib := false })],
+    excluded := [],
+    target :=
+    { origin := "target.py".toList, derived := (some "target".toList), isInit := false,
+      body :=
+      [.importFrom (some "m".toList) 0 [⟨"f".toList, (some "g".toList)⟩] "".toList false true,
+     .funcDef "caller".toList ⟨[], ["x".toList], none, [], none⟩
+      [(.other "Expr".toList [(.call (.name "g".toList .load) [(.name "x".toList .load)] [] [])])]
+      [] false] },
+    files :=
+  [{ origin := "/proj/m.py".toList, derived := (some "m".toList), isInit := false,
+      body :=
+      [.funcDef "f".toList ⟨[], ["p".toList], none, [], none⟩
+      [(.ret [(.attr (.name "p".toList .load) "in_f".toList .load)])]
+      [] false] }] }
+
+def proj_aliasDoc : ResultsDoc :=
+  [("caller".toList, ⟨["x".toList], [], [], ["g()".toList]⟩)]
+
+def outcomeIs2 (o : Outcome (ResultsDoc × List Diag)) (doc : ResultsDoc) (ds : List Diag) : Bool :=
+  match o with
+  | .ok (d, s) => decide (d = doc) && decide (s = ds)
+  | _ => false
+
+theorem eq_of_outcomeIs2 {o : Outcome (ResultsDoc × List Diag)} {doc : ResultsDoc} {ds : List Diag}
+    (h : outcomeIs2 o doc ds = true) : o = .ok (doc, ds) := by
+  cases o with
+  | ok a =>
+    obtain ⟨d, s⟩ := a
+    simp only [outcomeIs2, Bool.and_eq_true, decide_eq_true_eq] at h
+    rw [h.1, h.2]
+  | fatal a b => simp [outcomeIs2] at h
+  | crash e => simp [outcomeIs2] at h
+
+/-- TESTS (kernel evaluation of the WHOLE multi-file model): each document is the one the real CLI
+prints for that source tree. -/
+theorem pipeline2_test_from_import : run2 proj_split = .ok (proj_splitDoc, []) :=
+  eq_of_outcomeIs2 (by decide +kernel)
+
+theorem pipeline2_test_local : run2 proj_local = .ok (proj_localDoc, []) :=
+  eq_of_outcomeIs2 (by decide +kernel)
+
+theorem pipeline2_test_import_module : run2 proj_imp = .ok (proj_impDoc, []) :=
+  eq_of_outcomeIs2 (by decide +kernel)
+
+theorem pipeline2_test_reexport : run2 proj_reexp = .ok (proj_reexpDoc, []) :=
+  eq_of_outcomeIs2 (by decide +kernel)
+
+/-- the followed `f` inlines `m`'s own `util` (`y.m_util`), `mk` constructs `m`'s own `H`
+(`y.m_h`), while the target's calls reach the target's `util` (`x.t_util`). -/
+theorem pipeline2_test_module_local : run2 proj_twin = .ok (proj_twinDoc, []) :=
+  eq_of_outcomeIs2 (by decide +kernel)
+
+/-- fix ab5bdf0 (`seen` keyed on (call, file)): `m.f`'s call `util(a)` equals the target's `util(a)`
+as a Call symbol but is made in another file — it is expanded, `a.m_util` reaches `caller`. -/
+theorem pipeline2_test_equal_calls_across_modules :
+    run2 proj_seen = .ok (proj_seenDoc, []) ∧
+    (∃ e, Dict.get? proj_seenDoc "caller".toList = some e ∧ "a.m_util".toList ∈ e.gets ∧ "a.t_util".toList ∈ e.gets) := by
+  refine ⟨eq_of_outcomeIs2 (by decide +kernel), ?_⟩
+  decide
+
+/-- fix bb30ccd (no fallback to a same-named class of another file): `m.K` has no initialiser, so
+no key — the initialiser of the TARGET's `K` is not taken (`v.t_init` does not reach `caller`),
+"unable to resolve initialiser for 'K'". -/
+theorem pipeline2_test_class_no_fallback :
+    run2 proj_nofb = .ok (proj_nofbDoc, [mkDiag .error "init-unresolved" "K".toList]) :=
+  eq_of_outcomeIs2 (by decide +kernel)
+
+/-- **`pipeline2_cex_alias`** (the C06 alias family, end to end): `from m import f as g` —
+`resolve_import` derives the local name from the ALIAS, `g` is not in `m`'s context: "likely
+undefined", nothing of `f` reaches `caller`. -/
+theorem pipeline2_cex_alias :
+    run2 proj_alias = .ok (proj_aliasDoc, [mkDiag .error "import-likely-undefined" "g|m|".toList]) :=
+  eq_of_outcomeIs2 (by decide +kernel)
+
+/-- non-vacuity of (b) / `pipeline2_depth_one_equiv`: the decidable hypothesis holds for the pair
+(split, local), for `import m` + `m.f(x)` (callee spelled differently: no claim about calls) and for
+the re-export through `pkg/__init__`; the shape hypotheses of (b) hold for the split / local pair;
+both runs succeed. -/
+example :
+    (depthOneEquivB proj_split proj_local "caller".toList = true ∧ callNamesB proj_split proj_local "caller".toList = true) ∧
+    depthOneEquivB proj_imp proj_local "caller".toList = true ∧
+    callNamesB proj_imp proj_local "caller".toList = false ∧
+    (depthOneEquivB proj_reexp proj_local "caller".toList = true ∧ callNamesB proj_reexp proj_local "caller".toList = true) ∧
+    (∃ abs sf co rest, proj_split.target.body = .importFrom (some "m".toList) 0 [⟨"f".toList, none⟩] abs sf co :: rest ∧
+      ∃ ps fbody decos isAsync, proj_local.target.body = .funcDef "f".toList ps fbody decos isAsync :: rest ∧
+        ∃ mf ∈ proj_split.files, mf.body = [] ++ .funcDef "f".toList ps fbody decos isAsync :: []) := by
+  refine ⟨⟨by decide +kernel, by decide +kernel⟩, by decide +kernel, by decide +kernel,
+    ⟨by decide +kernel, by decide +kernel⟩, ?_⟩
+  exact ⟨_, _, _, _, rfl, _, _, _, _, rfl, _, List.mem_cons_self, rfl⟩
+
+/-- (b) APPLIED to the pair: the entries of `caller` in the two proved documents have the same
+members. -/
+example : ∃ e e', Dict.get? proj_splitDoc "caller".toList = some e ∧
+    Dict.get? proj_localDoc "caller".toList = some e' ∧
+    ∀ n, (n ∈ e.gets ↔ n ∈ e'.gets) ∧ (n ∈ e.sets ↔ n ∈ e'.sets) ∧ (n ∈ e.dels ↔ n ∈ e'.dels) ∧
+         (n ∈ e.calls ↔ n ∈ e'.calls) := by
+  obtain ⟨e, e', hg, hg', hm, hc⟩ :=
+    pipeline2_depth_one_equiv (P := proj_split) (P' := proj_local) (name := "caller".toList)
+      (by decide +kernel) pipeline2_test_from_import pipeline2_test_local
+  exact ⟨e, e', hg, hg', fun n => ⟨(hm n).1, (hm n).2.1, (hm n).2.2, hc (by decide +kernel) n⟩⟩
+
+/-- non-vacuity of (a): `proj_local` has no import. -/
+example : noImportSyms proj_local = true ∧ noImportTargets proj_local = true := by
+  constructor <;> decide +kernel
+
+/-- the analysed files of the twin project -/
+def fsTwin : List AFile :=
+  match analyseAll proj_twin with
+  | .ok (t, irs, _) => t :: irs
+  | _ => []
+
+/-- non-vacuity of (c): in the twin project the followed module is file 1, its origin differs from
+the target's, its derived name `m` is its own key; `f` (key of `m`) holds a call whose target is
+the `Func` `util`, a key of `m` — and the TARGET defines an equal `util` too; `mk` holds a call to
+the class `H`, which both files define. The resolved keys are in file 1. -/
+example :
+    ((fsTwin[1]?).map (·.derived) = some (some "m".toList)) ∧ originAt fsTwin 1 ≠ originAt fsTwin 0 ∧
+    irIdx fsTwin "m".toList = some 1 ∧
+    ((fsTwin[1]?).map fun f => (f.ir.map (·.1.name))) = some ["util".toList, "H".toList, "f".toList, "mk".toList] ∧
+    ((fsTwin[0]?).map fun f => (f.ir.map (·.1.name))) = some ["util".toList, "H".toList, "caller".toList] ∧
+    -- the same `util` symbol is a key of both files
+    ((fsTwin[0]?).bind fun f => (f.ir.map (·.1))[0]?) = ((fsTwin[1]?).bind fun f => (f.ir.map (·.1))[0]?) ∧
+    -- `m.f`'s call to `util`, resolved from file 1 and (what the code did before the fix) from file 0
+    (((fsTwin[1]?).bind fun f => (f.ir[2]?).bind fun p => p.2.calls[0]?).map fun c =>
+        (c.name, resolveCall2 proj_twin fsTwin 1 c, resolveCall2 proj_twin fsTwin 0 c)) =
+      some ("util".toList, .target 3, .target 0) ∧
+    -- `m.mk`'s call to `H`
+    (((fsTwin[1]?).bind fun f => (f.ir[3]?).bind fun p => p.2.calls[0]?).map fun c =>
+        (c.name, resolveCall2 proj_twin fsTwin 1 c, resolveCall2 proj_twin fsTwin 0 c)) =
+      some ("H".toList, .target 4, .target 1) := by
+  refine ⟨by decide +kernel, by decide +kernel, by decide +kernel, by decide +kernel, by decide +kernel,
+    by decide +kernel, by decide +kernel, by decide +kernel⟩
 
 end Rattr.C06
